@@ -38,7 +38,13 @@ def arrayproxy_fields(proxy: ArrayProxy) -> Optional[set[str | int]]:
 
     elems = list(flatten_elems(proxy))
     if elems and all(isinstance(el, data.View) for el in elems):
-        return set.intersection(*[set(cast(data.View, el).shape().members.keys()) for el in elems])
+
+        def layout_fields(layout) -> set[str | int]:
+            if isinstance(layout, data.ArrayLayout):
+                return set(range(layout.length))
+            return set(layout.members.keys())
+
+        return set.intersection(*[layout_fields(cast(data.View, el).shape()) for el in elems])
 
 
 def assign_arg_fields(val: AssignArg) -> Optional[set[str | int]]:
